@@ -219,6 +219,19 @@ func runC02(c *Ctx) {
 	c.unbufferedQueue("R02.9")
 	c.rule("R02.10", "a call accepted while the connection is unusable is failed at once, never registered: the unusable mark is set before every loss signal and cleared only after a new socket is installed")
 	c.lossSignalRule("R02.10")
+	c.rule("R02.11", "responses are delivered while handlers run: no handler (not even of a notification) runs on the frame executor, the only goroutine that routes responses")
+	if invs := c.dispInvokes(); len(invs) == 0 {
+		c.und("R02.11", "handler goroutine", "-", "no dispatcher invocation found")
+	} else {
+		for _, in := range invs {
+			c.check(c.onOwnGoroutine(in), "R02.11", fmt.Sprintf("%s: handler goroutine", fname(outermost(in.Parent()))), c.ipos(in), "own goroutine",
+				"a handler runs on the frame executor itself: while it runs no response on that connection is delivered and no later call is started, so a handler that waits for traffic on the same connection (a reverse call) never returns and every pending call hangs with it")
+		}
+	}
+	c.rule("R02.12", "reverse calls get the response produced for that very request: the reverse client, its request queue and its proxy are built per connection")
+	c.reverseClientFresh("R02.12")
+	c.rule("R02.13", "every hand-over of a request to the connection loop is a select alternative to the client's exit signal as it is at that moment (a call made around close returns)")
+	c.enqueueRule("R02.13")
 	c.rule("R02.8", "the argument list of the reflective handler call is allocated per invocation (never memory shared between calls)")
 	c.freshArgList("R02.8")
 }
